@@ -936,7 +936,7 @@ pub fn adapter_histories(ctx: &mut Ctx, prop: &str) {
             let mut ok = g.split(' ').take(if want.starts_with("ERR") { 2 } else { 1 }).collect::<Vec<_>>().join(" ") == *want;
             if ok && want == "OK" {
                 if let Answer::Key { identity, .. } = &c.answer {
-                    ok = g.contains(&format!("{:?}", imp::principal_for(identity))) && g.contains(&format!("{:?}", imp::session_for(identity)));
+                    ok = g.contains(&format!("{:?}", imp::principal_for(identity))) && g.contains("session_ok=true");
                 }
             }
             if !ok {
@@ -1255,6 +1255,327 @@ pub fn empty_body_bad_charset(ctx: &mut Ctx, prop: &str) {
             j.expect_calls = Some(0);
             jobs.push(j);
         }
+    }
+    run_jobs(ctx, "VALIDATE", jobs);
+}
+
+// =============================================================================================
+// Stages added after the ninth round of seeded changes
+
+/// Method tokens in other letter cases (`get`, `Post`): the method is covered as sent; a signature for `GET /x` does not
+/// validate `get /x`, and a request signed over its own lower-case method is accepted.
+pub fn method_letter_case(ctx: &mut Ctx, prop: &str) {
+    let mut rng = ctx.rng.fork();
+    let mut jobs = Vec::new();
+    let pc = prop.to_lowercase();
+    for (k, m) in ["get", "Get", "gEt", "post", "Delete", "pUT", "options", "m-search"].iter().enumerate() {
+        for carrier in [Carrier::Header, Carrier::Query] {
+            let mut l = simple_logical(carrier.clone(), T0);
+            l.method = m.to_string();
+            let now = now_for(&l, 0);
+            let s = sign_and_spell(&l, &mut rng, &Spelling::plain(), now);
+            jobs.push(accept_job(&s, &format!("{}-method-case", pc), "C01/C02: the method is covered as sent; a request signed over its own (lower-case) method token is accepted"));
+            let mut c = s.case.clone();
+            c.method = m.to_ascii_uppercase();
+            let _ = k;
+            jobs.push(job(c, Expect::Refuse(Some("SignatureDoesNotMatch")), &format!("{}-method-case", pc), "C01: a signature issued for one method token validates the request with the token in another letter case"));
+        }
+    }
+    run_jobs(ctx, "VALIDATE", jobs);
+}
+
+/// Folded form bodies in other character sets (ISO-8859-1 labels — windows-1252 per WHATWG —, UTF-16, ISO-2022-JP,
+/// Shift_JIS, KOI8-R …), with bytes 0x80-0x9F, with 7-bit-only bodies, with escape sequences: the body counts as the text
+/// its declared charset decodes it to (the reference signer signs the pairs of that text).
+pub fn other_charsets(ctx: &mut Ctx, prop: &str) {
+    let mut rng = ctx.rng.fork();
+    let mut jobs = Vec::new();
+    let pc = prop.to_lowercase();
+    let labels = ["iso-8859-1", "latin1", "l1", "cp819", "windows-1252", "utf-16le", "utf-16be", "utf-16", "iso-2022-jp", "shift_jis", "koi8-r", "iso-8859-2", "gbk", "euc-kr", "x-user-defined", "hz-gb-2312", "windows-1251", "macintosh"];
+    let bodies: Vec<Vec<u8>> = vec![
+        b"a=1&b=2".to_vec(), b"price=100\x80".to_vec(), b"q=\x93x\x94&r=\x85".to_vec(), b"n=\xe9\xa0".to_vec(), b"k=v&k=w&x=".to_vec(),
+        b"a\x00=\x001\x00".to_vec(), b"\x00a\x00=\x001".to_vec(), b"t=\x1b$B\x30\x21\x1b(B".to_vec(), b"z=~{<:~}".to_vec(), b"".to_vec(),
+    ];
+    for (li, label) in labels.iter().enumerate() {
+        for (bi, body) in bodies.iter().enumerate() {
+            let other = imp::other_charset(Some(label), body);
+            let mut l = simple_logical(if (li + bi) % 2 == 0 { Carrier::Header } else { Carrier::Query }, T0);
+            l.method = "POST".into();
+            l.fold = true;
+            let ct = format!("application/x-www-form-urlencoded; charset={}", label);
+            l.content_type = Some(ct);
+            l.signed.push("content-type".into());
+            let now = now_for(&l, 0);
+            if let Some(hex) = other.strip_prefix('D') {
+                // decodable: the pairs of the decoded text are what is authenticated
+                let text = unhx(hex);
+                match rs::ref_query_pairs(&text) {
+                    Some(pairs) => {
+                        l.form = Some(pairs);
+                        let s = sign_and_spell(&l, &mut rng, &Spelling::plain(), now);
+                        let mut c = s.case.clone();
+                        c.body = body.clone();
+                        jobs.push(accept_job_case(c, &s, &format!("{}-other-charset", pc), "C12/C02: a folded form body counts as the text its declared charset decodes it to; a request signed over the pairs of that text was refused"));
+                    }
+                    None => {
+                        l.form = Some(vec![]);
+                        let s = sign_and_spell(&l, &mut rng, &Spelling::plain(), now);
+                        let mut c = s.case.clone();
+                        c.body = body.clone();
+                        jobs.push(job(c, Expect::Refuse(Some("MalformedQueryString")), &format!("{}-other-charset", pc), "C12: a decoded form body with a malformed escape is a malformed query string"));
+                    }
+                }
+            } else {
+                l.form = Some(vec![]);
+                let s = sign_and_spell(&l, &mut rng, &Spelling::plain(), now);
+                let mut c = s.case.clone();
+                c.body = body.clone();
+                let mut j = job(c, Expect::Refuse(Some("InvalidBodyEncoding")), &format!("{}-other-charset", pc), "C12: a body its declared charset cannot decode (or an unknown charset) is refused as an invalid body encoding");
+                j.expect_calls = Some(0);
+                jobs.push(j);
+            }
+        }
+    }
+    run_jobs(ctx, "VALIDATE", jobs);
+}
+
+/// Credential-scope parts that are the expected text followed by 256·k more bytes, and other long near misses.
+pub fn long_scope_near_misses(ctx: &mut Ctx, prop: &str) {
+    let mut rng = ctx.rng.fork();
+    let mut jobs = Vec::new();
+    for (k, extra) in [1usize, 255, 256, 257, 512, 768, 1024, 65536].iter().enumerate() {
+        for part in 0..4 {
+            let mut l = simple_logical(if (k + part) % 2 == 0 { Carrier::Header } else { Carrier::Query }, T0);
+            let pad = "x".repeat(*extra);
+            let now = now_for(&l, 0);
+            // the client signs consistently over the scope it sends, with the key of the configured scope
+            let base = sign_and_spell(&l, &mut rng, &Spelling::plain(), now);
+            match part {
+                0 => l.scope_date_override = Some(format!("{}{}", base.scope_date, "0".repeat(*extra))),
+                1 => l.region = format!("{}{}", l.region, pad),
+                2 => l.service = format!("{}{}", l.service, pad),
+                _ => {}
+            }
+            let s = sign_and_spell(&l, &mut rng, &Spelling::plain(), now);
+            let mut c = s.case.clone();
+            c.region = "us-east-1".into();
+            c.service = "service".into();
+            if part == 3 {
+                c.uri = c.uri.replace("aws4_request", &format!("aws4_request{}", pad));
+                for (nme, v) in c.headers.iter_mut() {
+                    if nme.eq_ignore_ascii_case("authorization") {
+                        *v = String::from_utf8_lossy(v).replace("aws4_request", &format!("aws4_request{}", pad)).into_bytes();
+                    }
+                }
+            }
+            // the provider would hand out the configured scope's key: the signature over the sent scope may well verify
+            c.answer = Answer::Key { key: base.key.clone(), identity: base.identity.clone() };
+            if c.uri.len() > 60_000 {
+                continue;
+            }
+            let mut j = job(c, Expect::Refuse(Some("SignatureDoesNotMatch")), &format!("{}-long-scope-near-miss", prop.to_lowercase()), "C03: a scope part that merely begins with the expected text (however many bytes follow) is a foreign scope: refused, no key lookup");
+            j.expect_calls = Some(0);
+            jobs.push(j);
+        }
+    }
+    run_jobs(ctx, "VALIDATE", jobs);
+}
+
+/// A header whose name IS a declared prefix, and signed-header entries padded with blanks or tabs.
+pub fn prefix_equals_name_and_padded_entries(ctx: &mut Ctx, prop: &str) {
+    let mut rng = ctx.rng.fork();
+    let mut jobs = Vec::new();
+    let pc = prop.to_lowercase();
+    for k in 0..ctx.n(30, 400) {
+        // (a) name == prefix, unsigned
+        let mut l = simple_logical(if k % 2 == 0 { Carrier::Header } else { Carrier::Query }, T0);
+        let name = ["x-tenant", "X-Amz-Meta", "my-header", "x"][k % 4];
+        l.headers.push((name.to_string(), b"v".to_vec()));
+        let now = now_for(&l, 0);
+        let s = sign_and_spell(&l, &mut rng, &Spelling::plain(), now);
+        let mut c = s.case.clone();
+        c.prefixes = vec![if k % 3 == 0 { name.to_uppercase() } else { name.to_string() }];
+        c.vec_reqs = k % 2 == 1;
+        let mut j = job(c, Expect::Refuse(Some("SignatureDoesNotMatch")), &format!("{}-prefix-equals-name", pc), "C05: a request header whose name starts with a declared prefix — the prefix itself included — must be signed");
+        j.expect_calls = Some(0);
+        jobs.push(j);
+        // (b) a required header left unsigned while the signed list carries its name padded with a blank or a tab
+        let mut l2 = simple_logical(if k % 2 == 0 { Carrier::Header } else { Carrier::Query }, T0);
+        l2.headers.push(("x-tenant".into(), b"acme".to_vec()));
+        let s2 = sign_and_spell(&l2, &mut rng, &Spelling::plain(), now);
+        let mut c2 = s2.case.clone();
+        let padded = [" x-tenant", "x-tenant ", "\tx-tenant", "x-tenant\t"][k % 4];
+        // the client signs exactly what it sends: re-sign is not needed for the expectation (requirement rule comes first)
+        c2.uri = c2.uri.replace("X-Amz-SignedHeaders=host", &format!("X-Amz-SignedHeaders={}%3Bhost", padded.replace(' ', "%20").replace('\t', "%09")));
+        for (nme, v) in c2.headers.iter_mut() {
+            if nme.eq_ignore_ascii_case("authorization") {
+                *v = String::from_utf8_lossy(v).replace("SignedHeaders=host", &format!("SignedHeaders={};host", padded)).into_bytes();
+            }
+        }
+        match k % 3 {
+            0 => c2.always = vec!["x-tenant".into()],
+            1 => c2.ifreq = vec!["X-Tenant".into()],
+            _ => c2.prefixes = vec!["x-ten".into()],
+        }
+        if c2.uri == s2.case.uri && c2.headers == s2.case.headers {
+            continue;
+        }
+        let mut j = job(c2, Expect::Refuse(None), &format!("{}-padded-signed-entry", pc), "C05: a signed-header entry padded with a blank or tab is not the header's name: the required header is not signed and the request must be refused");
+        j.expect_calls = Some(0);
+        jobs.push(j);
+    }
+    run_jobs(ctx, "VALIDATE", jobs);
+}
+
+/// Query strings with 1024-1400 components (empty ones included): still the sorted multiset of all pairs.
+pub fn thousand_parameters(ctx: &mut Ctx, prop: &str) {
+    let mut rng = ctx.rng.fork();
+    let mut jobs = Vec::new();
+    for k in 0..ctx.n(3, 12) {
+        let mut l = simple_logical(if k % 2 == 0 { Carrier::Header } else { Carrier::Query }, T0);
+        let n = 1024 + k * 37;
+        l.query = (0..n).map(|i| (format!("p{}", (i * 7919) % 1500).into_bytes(), format!("{}", i % 11).into_bytes())).collect();
+        let now = now_for(&l, 0);
+        let mut sp = Spelling::plain();
+        sp.permute = k % 2 == 1;
+        let s = sign_and_spell(&l, &mut rng, &sp, now);
+        jobs.push(accept_job(&s, &format!("{}-thousand-parameters", prop.to_lowercase()), "C10: the canonical query lists every pair, however many there are; a reference-signed request with more than 1024 parameters was refused"));
+    }
+    run_jobs(ctx, "VALIDATE", jobs);
+}
+
+/// Signed headers whose values carry the out-of-band `sensitive` flag (never-indexed fields): the flag is not part of the
+/// value; the request validates at every log level.
+pub fn sensitive_header_values(ctx: &mut Ctx, prop: &str) {
+    let mut rng = ctx.rng.fork();
+    let mut jobs = Vec::new();
+    for k in 0..ctx.n(10, 100) {
+        let mut l = simple_logical(if k % 2 == 0 { Carrier::Header } else { Carrier::Query }, T0);
+        l.headers.push(("X-Sensitive-Key".into(), format!("secret-{}", k).into_bytes()));
+        if k % 3 != 2 {
+            l.signed.push("x-sensitive-key".into());
+        }
+        let now = now_for(&l, 0);
+        let s = sign_and_spell(&l, &mut rng, &Spelling::plain(), now);
+        for _ in 0..2 {
+            jobs.push(accept_job(&s, &format!("{}-sensitive-header-value", prop.to_lowercase()), "C11: a signed header contributes its value, whatever out-of-band flags the value carries and whatever the log level"));
+        }
+        let mut c = s.case.clone();
+        for (nme, v) in c.headers.iter_mut() {
+            if nme.eq_ignore_ascii_case("x-sensitive-key") {
+                *v = b"another-value".to_vec();
+            }
+        }
+        if k % 3 != 2 {
+            for _ in 0..2 {
+                jobs.push(job(c.clone(), Expect::Refuse(Some("SignatureDoesNotMatch")), &format!("{}-sensitive-header-value", prop.to_lowercase()), "C11: changing a signed header's value invalidates the signature, sensitive or not"));
+            }
+        }
+    }
+    run_jobs(ctx, "VALIDATE", jobs);
+}
+
+/// A folded form body refused for a malformed escape behind well-formed components, then another folded request on the
+/// same thread: the second one's parameters are exactly its own.
+pub fn bad_fold_then_good_fold(ctx: &mut Ctx, prop: &str) {
+    let mut rng = ctx.rng.fork();
+    let mut jobs = Vec::new();
+    let pc = prop.to_lowercase();
+    for k in 0..ctx.n(10, 150) {
+        let mut l = simple_logical(if k % 2 == 0 { Carrier::Header } else { Carrier::Query }, T0);
+        l.method = "POST".into();
+        l.fold = true;
+        l.content_type = Some("application/x-www-form-urlencoded".into());
+        l.signed.push("content-type".into());
+        l.form = Some(vec![(b"Action".to_vec(), b"DeleteEverything".to_vec()), (b"x".to_vec(), b"1".to_vec())]);
+        let now = now_for(&l, 0);
+        let s = sign_and_spell(&l, &mut rng, &Spelling::plain(), now);
+        let mut bad = s.case.clone();
+        bad.body = [&b"Action=DeleteEverything&leak=1&x=%zz"[..], b"a=1&b=2&c=%4", b"k=v&%", b"Stale=yes&q=%G0"][k % 4].to_vec();
+        jobs.push(job(bad, Expect::Refuse(Some("MalformedQueryString")), &format!("{}-bad-fold-then-good-fold", pc), "C12: a malformed escape in a folded body is a malformed query string"));
+        let mut l2 = l.clone();
+        l2.form = Some(vec![(b"fresh".to_vec(), format!("{}", k).into_bytes())]);
+        let s2 = sign_and_spell(&l2, &mut rng, &Spelling::plain(), now);
+        jobs.push(accept_job(&s2, &format!("{}-bad-fold-then-good-fold", pc), "C12/C15: no parameter is invented: the parameters of a folded request are its own URL and body parameters, whatever was refused before on this thread"));
+    }
+    run_jobs(ctx, "VALIDATE", jobs)
+        .len();
+}
+
+/// Provider answers whose session data carries address values (an IPv4-mapped IPv6 address among them): returned unchanged.
+pub fn address_session_values(ctx: &mut Ctx, prop: &str) -> Vec<Done> {
+    let mut rng = ctx.rng.fork();
+    let mut jobs = Vec::new();
+    for k in 0..ctx.n(6, 60) {
+        let l = simple_logical(if k % 2 == 0 { Carrier::Header } else { Carrier::Query }, T0);
+        let now = now_for(&l, 0);
+        let s = sign_and_spell(&l, &mut rng, &Spelling::plain(), now);
+        let mut c = s.case.clone();
+        c.answer = Answer::Key { key: s.key.clone(), identity: format!("ipuser{}", k) };
+        jobs.push(accept_job_case(c, &s, &format!("{}-address-session-values", prop.to_lowercase()), "C15: the principal and session data returned are exactly those the key provider supplied"));
+    }
+    run_jobs(ctx, "VALIDATE", jobs)
+}
+
+/// The growable requirements container with the same name added twice in different letter case and removed once: nothing
+/// remains required; a correctly signed request carrying that header unsigned is accepted (and the container's accessors
+/// show what the reference semantics predicts).
+pub fn duplicate_case_requirement_histories(ctx: &mut Ctx, prop: &str) {
+    let mut rng = ctx.rng.fork();
+    let mut jobs = Vec::new();
+    for k in 0..ctx.n(12, 200) {
+        let mut l = simple_logical(if k % 2 == 0 { Carrier::Header } else { Carrier::Query }, T0);
+        l.headers.push(("x-trace-id".into(), b"abc".to_vec()));
+        let now = now_for(&l, 0);
+        let s = sign_and_spell(&l, &mut rng, &Spelling::plain(), now);
+        let mut c = s.case.clone();
+        let (add, rem) = [('I', 'i'), ('A', 'a'), ('P', 'p')][k % 3];
+        let spellings = [["X-Trace-Id", "X-Trace-ID"], ["X-TRACE-ID", "x-Trace-id"], ["X-Trace-Id", "X-TRACE-Id"]][k % 3];
+        let mut ops = vec![(add, spellings[0].to_string()), (add, spellings[1].to_string())];
+        if k % 4 == 1 {
+            ops.push(('V', String::new()));
+        }
+        ops.push((rem, if k % 2 == 0 { "x-trace-id".to_string() } else { "X-TRACE-ID".to_string() }));
+        c.vec_reqs = true;
+        c.req_ops = ops;
+        c.always = vec![];
+        c.ifreq = vec![];
+        c.prefixes = vec![];
+        jobs.push(accept_job_case(c, &s, &format!("{}-duplicate-case-requirements", prop.to_lowercase()), "C05/C11: a name removed from the requirements is no longer required, however often and in whatever letter case it had been added; the unsigned header is then without influence"));
+    }
+    run_jobs(ctx, "VALIDATE", jobs);
+}
+
+/// Over-long signatures (65 … 128 bytes, 64 characters with a non-ASCII one) behind a key lookup that fails: the lookup's
+/// error is the one reported, after exactly one call.
+pub fn long_signature_behind_failing_lookup(ctx: &mut Ctx, prop: &str) {
+    let mut rng = ctx.rng.fork();
+    let mut jobs = Vec::new();
+    let errs: [(ProvErr, &str); 4] = [(ProvErr::Sig("InvalidClientTokenId"), "InvalidClientTokenId"), (ProvErr::Sig("ExpiredToken"), "ExpiredToken"), (ProvErr::Foreign, "InternalServiceError"), (ProvErr::ForeignOther("TimedOut"), "InternalServiceError")];
+    for k in 0..ctx.n(24, 300) {
+        let l = simple_logical(if k % 2 == 0 { Carrier::Header } else { Carrier::Query }, T0);
+        let now = now_for(&l, 0);
+        let s = sign_and_spell(&l, &mut rng, &Spelling::plain(), now);
+        let mut c = s.case.clone();
+        let long: String = match k % 4 {
+            0 => format!("{}0", s.signature),
+            1 => format!("{}{}", s.signature, &s.signature[..16]),
+            2 => format!("{}{}", s.signature, s.signature),
+            _ => if k % 2 == 0 { format!("{}\u{e9}", &s.signature[..63]) } else { format!("{}%C3%A9", &s.signature[..63]) },
+        };
+        set_signature(&mut c, &s.signature, &long);
+        for (_, v) in c.headers.iter_mut() {
+            if let Ok(t) = std::str::from_utf8(v) {
+                if t.contains('\u{e9}') {
+                    *v = latin1_bytes(t);
+                }
+            }
+        }
+        let (pe, kind) = errs[(k / 4) % errs.len()].clone();
+        c.answer = Answer::Err(pe);
+        let mut j = job(c, Expect::Refuse(Some(kind)), &format!("{}-long-signature-behind-failing-lookup", prop.to_lowercase()), "C13/C14: the key lookup precedes the signature comparison: when it fails its error is reported (after exactly one call), whatever the presented signature looks like");
+        j.expect_calls = Some(1);
+        jobs.push(j);
     }
     run_jobs(ctx, "VALIDATE", jobs);
 }
